@@ -52,7 +52,7 @@ CHECKS = {
         "level": "exploration",
         "text": "Seeded search over worker assignment, completion order, producer run-ahead, delivery order, stragglers (one task outlasting all others), process counts, path-argument order and interpreter hash seeds with sqlfluff's real ParallelRunner running on a discrete-event SimPool (real pickling, in-process and forked fresh-process workers); oracle = serial fresh-process run of the same world (violations, fixed bytes, modes, skip count, exit code). Sampling, not proof.",
         "design_ref": "DESIGN.md §4 C24, §3.5",
-        "note": "Trusts: SimPool models multiprocessing.Pool.imap_unordered's observable contract (1 run in 16 quick / 6 thorough is repeated through the real multiprocessing.Pool as a fidelity cross-check that is outside digests and verdicts; a disagreement exits 2); pickle; zygote fork == fresh interpreter.",
+        "note": "Trusts: SimPool models multiprocessing.Pool.imap_unordered's observable contract (in the thorough tier 1 run in 8 is repeated through the real multiprocessing.Pool as a fidelity cross-check that is outside digests and verdicts; a disagreement exits 2); pickle; zygote fork == fresh interpreter.",
         "technique": "deterministic simulation: seeded discrete-event scheduler replacing the multiprocessing pool, serial run as reference model",
     },
     "C18": {
@@ -78,7 +78,7 @@ CHECKS = {
     },
     "C27": {
         "level": "exploration",
-        "text": "Config hierarchies generated from a structured description; a reference merge written from the statement decides each probed key; observations are taken inside histories (shared caches, shared Linter, evictions, restarts, parallel workers) and must equal the model's value for the file alone.",
+        "text": "Config hierarchies generated from a structured description; a reference merge written from the statement decides each probed key; observations are taken inside histories (shared caches, shared Linter, evictions, restarts, parallel workers) and must equal the model's value for the file alone; a behavioural cross-check (violations inside the history == violations of the same file in a fresh process against one flat config holding the model's values) closes the loop from config object to behaviour.",
         "design_ref": "DESIGN.md §4 C27",
         "note": "No config file above the cwd (statement and code agree there); pathspec/configparser/tomllib trusted.",
         "technique": "deterministic simulation: history machine over process-level config caches against a reference merge model",
